@@ -9,7 +9,7 @@ hexadecimale_timestamp_to_localtime must give HH:MM back.  Malformed strings mus
 """
 import struct
 
-from mc.core import Res
+from mc.core import optimized_job as core_optimized_job, run_optimized as core_run_optimized, Res
 from mc.world import Clock, set_zone
 from ref import zones as Z
 
@@ -32,7 +32,7 @@ NOWS = [(0, 0, 30), (12, 0, 0), (23, 59, 30)]
 
 def jobs(tier, seed):
     # one job per zone, all its dates in sequence: anything remembered from one date to the next shows inside the job
-    return [{"zone": zone, "dates": [d.isoformat() for d in Z.dates_for(zone, tier)]} for zone in Z.ZONES]
+    return core_optimized_job([{"zone": zone, "dates": [d.isoformat() for d in Z.dates_for(zone, tier)]} for zone in Z.ZONES])
 
 
 def check_minute(res, zone, date, now_epoch, m):
@@ -71,6 +71,10 @@ def check_minute(res, zone, date, now_epoch, m):
 
 
 def run_job(job):
+    if job.get("part") == "optimized":
+        r0 = Res()
+        core_run_optimized(ID, job.get("tier", "quick"), r0)
+        return r0
     import datetime
 
     res = Res()
@@ -136,6 +140,10 @@ def run_date(job, res):
 
 
 def replay(case):
+    if isinstance(case, dict) and case.get("part") == "optimized":
+        r0 = Res()
+        core_run_optimized(ID, case.get("tier", "quick"), r0)
+        return r0.violations
     import datetime
 
     from aioswitcher.schedule import tools
